@@ -1,6 +1,7 @@
 package checks
 
 import (
+	"bytes"
 	"encoding/json"
 	"fmt"
 	"hash/fnv"
@@ -315,7 +316,12 @@ func runConc(p *concParams, prefix []int, extra func(w *harness.World, cr *concR
 						call := tick()
 						var err error
 						if t == "w" {
+							before := append([]byte(nil), lb.Dump()...)
 							err = db.Write(lb, wo)
+							// "Write will not modify content of the batch" (C20)
+							if !bytes.Equal(before, lb.Dump()) {
+								cr.Viol = append(cr.Viol, fmt.Sprintf("c%d %s: Write modified the caller's batch (%d -> %d records)", ci, op, len(mb), lb.Len()))
+							}
 							// reuse the batch at once, as a caller may: same keys, foreign values
 							lb.Reset()
 							for _, o := range mb {
